@@ -8,10 +8,10 @@ rm -rf $S; mkdir -p $S
 rsync -a --exclude .git /repo/ $S/
 patch -s -p1 -d $S < /verif/seeded/$SEED/patch.diff || { echo "patch failed"; rm -rf $S; exit 2; }
 cd /verif
-DCMSTACK_REPO=$S ./check $PID --tier $TIER > $S.log 2>&1
+VERIF_RUN_TAG=$SEED DCMSTACK_REPO=$S ./check $PID --tier $TIER > $S.log 2>&1
 rc=$?
 tail -4 $S.log
 RP=$(grep -o 'replay=[^ ]*' $S.log | head -1 | cut -d= -f2)
 { echo "check=$PID tier=$TIER exit=$rc"; grep -E '^(VIOLATION|KNOWN-FINDING)' $S.log; [ -n "$RP" ] && [ -f "$RP" ] && { echo "--- replay ---"; head -c 1500 "$RP"; }; } > /verif/seeded/$SEED/result_$PID.txt
-rm -rf $S $S.log
+rm -rf $S $S.log /verif/work/${PID}_$SEED
 exit $rc
